@@ -872,4 +872,115 @@ theorem shrinkLoop_stops (E : Env) (N : Nat) (d : Desc) (nw t : Bool) (hc : Cok 
         exact lookup_write_ne _ _ _ _ hk1
 
 
+theorem toFloat_eq' (E : Env) (v : Val) : toFloat E v = Spec.toNumber E v := by cases v <;> rfl
+
+/-- the finite-double core of `length_range` -/
+theorem length_range_fin (s : Bool) (m : Nat) (e : Int) :
+    (if (!(if m = 0 then true else
+            if truncInt (.fin s m e) ≥ 2^63 then false else if truncInt (.fin s m e) ≤ -(2^63 : Int) then false else isIntegral m e)
+          || !isUint32 (if truncInt (.fin s m e) ≥ 2^63 then maxInt64 else if truncInt (.fin s m e) ≤ -(2^63 : Int) then minInt64 else truncInt (.fin s m e))) = true
+      then none
+      else some (if truncInt (.fin s m e) ≥ 2^63 then maxInt64 else if truncInt (.fin s m e) ≤ -(2^63 : Int) then minInt64 else truncInt (.fin s m e)).toNat)
+    = (if Spec.valEqNat (.fin s m e) ((truncInt (.fin s m e) % (2^32 : Int)).toNat) = true
+        then some ((truncInt (.fin s m e) % (2^32 : Int)).toNat) else none) := by
+  simp only [truncInt, truncAbs, isIntegral, Spec.valEqNat, isUint32, maxUint32, maxInt64, minInt64]
+  by_cases he : e ≥ 0
+  · simp only [he, if_true]
+    generalize hA : m * 2 ^ e.toNat = A
+    have hA0 : m = 0 → A = 0 := by intro h; subst h; simp at hA; exact hA.symm
+    have hA1 : m ≠ 0 → A ≥ 1 := by
+      intro h
+      have : 0 < 2 ^ e.toNat := Nat.two_pow_pos _
+      have := Nat.mul_pos (Nat.pos_of_ne_zero h) this
+      omega
+    by_cases hm : m = 0
+    · have := hA0 hm; subst this; subst hm
+      cases s <;> simp
+    · have := hA1 hm
+      cases s with
+      | true =>
+        simp only [hm, if_false, if_true]
+        simp
+        repeat' (first | rfl | omega | (apply congrArg some; omega) | split)
+      | false =>
+        simp only [hm, if_false, Bool.false_eq_true]
+        by_cases hlt : A < 2^32
+        · have h1 : ((A : Int) % 2^32).toNat = A := by omega
+          simp [h1]
+          repeat' (first | rfl | omega | (apply congrArg some; omega) | split)
+        · have h1 : ¬ (A = ((A : Int) % 2^32).toNat) := by omega
+          simp [h1]
+          repeat' (first | rfl | omega | (apply congrArg some; omega) | split)
+  · simp only [he, if_false]
+    generalize hP : 2 ^ (-e).toNat = P
+    have hP1 : P ≥ 1 := by have := Nat.two_pow_pos (-e).toNat; omega
+    generalize hQ : m / P = Q
+    generalize hR : m % P = R
+    have hQR : Q = 0 → m ≠ 0 → R ≠ 0 := by
+      intro hq hm
+      have : m < P := by
+        rcases Nat.lt_or_ge m P with h | h
+        · exact h
+        · have := Nat.div_pos h (by omega); omega
+      rw [Nat.mod_eq_of_lt this] at hR; omega
+    by_cases hm : m = 0
+    · subst hm
+      have : Q = 0 := by rw [← hQ]; simp
+      subst this
+      have : R = 0 := by rw [← hR]; simp
+      subst this
+      cases s <;> simp
+    · have hqr := fun h => hQR h hm
+      cases s with
+      | true =>
+        simp only [hm, if_false, if_true]
+        simp
+        by_cases hq0 : Q = 0
+        · have := hqr hq0; subst hq0; simp [this]
+        · repeat' (first | rfl | omega | (apply congrArg some; omega) | split)
+      | false =>
+        simp only [hm, if_false, Bool.false_eq_true]
+        by_cases hlt : Q < 2^32
+        · have h1 : ((Q : Int) % 2^32).toNat = Q := by omega
+          simp [h1]
+          by_cases hr : R = 0
+          · simp [hr]; repeat' (first | rfl | omega | (apply congrArg some; omega) | split)
+          · simp [hr]
+        · have h1 : ¬ (Q = ((Q : Int) % 2^32).toNat) := by omega
+          simp [h1]
+          repeat' (first | rfl | omega | (apply congrArg some; omega) | split)
+
+/-- **length_range**: arrayUint32 accepts exactly the values with ToUint32(v) = ToNumber(v) (and yields that
+    uint32); everything else is a RangeError (§15.4.5.1 step 3.d, §15.4.2.2) -/
+theorem length_range (E : Env) (v : Val) : arrayUint32 E v = Spec.lengthOf E v := by
+  have key : ∀ x : FV, (∀ i, v ≠ .int i) → toFloat E v = x →
+      arrayUint32 E v = (match x with
+        | .fin s m e => if Spec.valEqNat (.fin s m e) ((truncInt (.fin s m e) % (2^32 : Int)).toNat) = true
+            then some ((truncInt (.fin s m e) % (2^32 : Int)).toNat) else none
+        | _ => none) := by
+    intro x hv hx
+    have h1 : isIntegerKind E v = (match x with
+        | .nan => false | .inf _ => false
+        | .fin s m e => if m = 0 then true else
+            if truncInt (.fin s m e) ≥ 2^63 then false else if truncInt (.fin s m e) ≤ -(2^63 : Int) then false else isIntegral m e) := by
+      cases v <;> first | exact absurd rfl (hv _) | (simp only [isIntegerKind, hx]; cases x <;> rfl)
+    have h2 : toI64 E v = (match x with
+        | .nan => 0 | .inf s => if s then minInt64 else maxInt64
+        | .fin s m e => if truncInt (.fin s m e) ≥ 2^63 then maxInt64 else if truncInt (.fin s m e) ≤ -(2^63 : Int) then minInt64 else truncInt (.fin s m e)) := by
+      cases v <;> first | exact absurd rfl (hv _) | (simp only [toI64, hx]; cases x <;> rfl)
+    simp only [arrayUint32, h1, h2]
+    cases x with
+    | nan => simp
+    | inf s => simp
+    | fin s m e => exact length_range_fin s m e
+  cases v with
+  | int i =>
+    simp only [arrayUint32, isIntegerKind, toI64, isUint32, maxUint32, Spec.lengthOf]
+    by_cases h1 : 0 ≤ i <;> by_cases h2 : i ≤ 4294967295 <;> simp [h1, h2] <;> omega
+  | undef | null | bool _ | num _ | str _ | recv =>
+    rw [key _ (fun i h => by cases h) rfl]
+    simp only [Spec.lengthOf, Spec.toUint32, ← toFloat_eq']
+    cases toFloat E _ <;> simp [Spec.valEqNat]
+
+
 end OttoVerif.C08.Thm
